@@ -1817,7 +1817,10 @@ def run(ctx: vf.Ctx):
         'in {none, trivial, greedy, static}; 0..3 layout passes; random decay / extended-set parameters; in ~35%% of '
         'cases (and all of a sparse-graph stream) the swap choice is replaced by a seeded adversary so that '
         'backtracking and uphill swaps occur; a stream that routes twice on two different graphs (final_mapping composed '
-        'with a non-identity mapping); ~8%% malformed (disconnected machine, machine too small). '
+        'with a non-identity mapping); a PAM stream (PAMLayoutPass / PAMRoutingPass, sequences with and without a first '
+        'ApplyPlacement) on circuits of 1-3 qudit blocks and barriers with EXACT pre-synthesised triples built for every '
+        'connected local graph and (pre, post) permutation pair of the chosen mode, perm scores randomised in half of them; '
+        '~8%% malformed (disconnected machine, machine too small). '
         'non-trivial = at least one swap emitted or placement != identity; distinct by canonical JSON of the case'
         % ctx.n(4, 5))
     ctx.assumptions += [
@@ -1827,7 +1830,8 @@ def run(ctx: vf.Ctx):
         'semantic clause of the theorems is stated for an arbitrary monoid semantics with commuting independent gates and '
         'swap naturality; the matrix instance is exercised by the exact basis-state oracle only',
         'StaticPlacementPass search result is an oracle (checked injective on every run)',
-        'PAM (permutation-aware) passes: not modelled',
+        'PAM: the unitary of a pre-synthesised triple is an oracle (contract circ = Po^T.U.Pi taken as the meaning of a block; '
+        'the harness constructs exact triples and checks them against that contract); block locations ascending',
     ]
     ctx.trusted = ['Coq 8.16.1 kernel', 'ExtrOcamlBasic extraction, OCaml 4.13.1, coq/extract/sabre_driver.ml',
                    'harness/props/c09.py recorder (RecSet / CircuitProxy / method overrides) and exact monomial simulator',
@@ -1886,10 +1890,11 @@ def run(ctx: vf.Ctx):
     ctx.cov['cases_with_final_ne_initial_mapping'] = agg.get('fmap_ne_imap', 0)
     ctx.cov['functions_with_theorems'] = ['apply_swap', 'apply_perm', 'compose', 'do_step/replay (Exec, Swap, Backtrack, Uphill)',
                                           'routing_pass', 'layout_pass', 'set_model', 'trivial/greedy/static placement (injectivity)',
-                                          'apply_placement', 'pipeline']
+                                          'apply_placement', 'pipeline', 'do_pstep/preplay (PAM)', 'perm_exec',
+                                          'pam_routing_pass', 'pam_layout_pass']
     ctx.cov['correspondence_only'] = ['greedy_loop tie-breaking order', 'front/rear against Circuit.front/rear']
-    ctx.cov['uncovered'] = ['PAM forward pass / PAMLayoutPass / PAMRoutingPass / EmbedAllPermutationsPass (not modelled)',
-                            'termination of the SABRE main loop']
+    ctx.cov['uncovered'] = ['EmbedAllPermutationsPass / SubtopologySelectionPass (numerical synthesis; the harness builds exact perm data instead)',
+                            'termination of the SABRE / PAM main loop']
     if not ctx.samples and cases:
         c = cases[len(corpus)]
         ctx.sample(dict(n=c['n'], m=c['m'], edges=c['edges'], ops=c['ops'][:6]))
